@@ -80,3 +80,14 @@ check("C07", "exploration",
       [native("thorough"), miri(shards=8)],
       minima={"exhaustive_inputs": 65793, "reference_compress_compared": 10000, "reference_decoded_ok": 10000, "decompress_runaway": 1000,
               "decompress_capacity_probes": 100000, "compress_capacity_probes": 100000, "tables[ties]": 10, "tables[uniform]": 10})
+
+check("C09", "exploration",
+      [native("quick")],
+      [native("thorough"), miri(shards=4)],
+      minima={"pairs_checked": 10000, "reference_pairs": 2000, "pairs_with_deletions": 1000, "pairs_with_additions": 1000,
+              "exhaustive_universes": 39, "max_items": 1000})
+
+check("C10", "exploration",
+      [native("quick")],
+      [native("thorough"), miri(shards=4)],
+      minima={"snapshots[uuid-types=>=2]": 1000, "snapshots[uuid-types=1]": 500, "snapshots[uuid-types=0]": 500, "max_items": 1000})
